@@ -159,6 +159,35 @@ def t_live(I, T, ndata, payload="hb", yield_on_send=False, ratio=4):
     cover("live")
 
 
+def t_reconnect(I, T, lost):
+    """ping thread per connection: after a loss and a reconnect exactly one thread pings the new connection, one interval apart"""
+    I, T = Fraction(I), Fraction(T)
+    first = {"script": [(1, "EOF" if lost == "eof" else "RESET")], "on_frame_bytes": _pong_responder(10 ** 6, 0)}
+    second = {"script": [], "on_frame_bytes": _pong_responder(10 ** 6, 0)}
+    run = AppRun([first, second], step_budget=6000)
+    run.net.ping_times = []
+    peak = {"threads": 0}
+
+    def watch(_n):
+        peak["threads"] = max(peak["threads"], sum(1 for t in run.k.live_threads if t.is_alive()))
+    run.k.on_yield = watch
+    horizon = 2 + 5 * I
+    run.k.at(run.k.t0 + horizon, lambda: [s.deliver(close_frame(1000)) for s in run.net.socks if not s.closed])
+    try:
+        run.run(ping_interval=I, ping_timeout=T, reconnect=1)
+    except simnet.KernelStuck:
+        sx.require(False, "run blocked forever")
+        return
+    pings = run.net.ping_times
+    sx.require(len(pings) >= 2, "pings are sent on the re-established connection", got=len(pings), I=str(I))
+    for a, b in zip(pings, pings[1:]):
+        sx.require(b - a == I, "pings on the re-established connection are exactly one interval apart (one ping thread)", I=str(I), T=str(T),
+                   gap=str(b - a))
+    sx.require(peak["threads"] <= 1, "the ping thread of a lost connection is stopped before the next one starts", got=peak["threads"])
+    sx.require(not any(run.alive), "no ping thread survives the run")
+    cover("reconnect-ping")
+
+
 GRID_T = (1, 2, 5)
 GRID_R = ("11/10", "3/2", "2", "5/2", "4")
 
@@ -181,6 +210,9 @@ def obligations(tier):
         Obligation("T-live-sym", t_live, live_sym,
                    bounds="EVERY accepted pair as in T-silent-sym; every ping answered after a latency that is a solver real in [0, timeout); with and without "
                           "write preemption", must_cover=["live"], budget_s=2400, step_budget=400000, kernel=["WebSocketApp._send_ping", "check", "read (pong branch)"]),
+        Obligation("T-reconnect", t_reconnect, [dict(I=i, T=t, lost=l) for (i, t) in (("3", "1"), ("4", "3"), ("10", "2")) for l in ("eof", "reset")],
+                   bounds="3 setting pairs; first connection lost by end of stream / reset after 1 s, reconnect interval 1, then 5 intervals of a healthy connection",
+                   must_cover=["reconnect-ping"], step_budget=400000, kernel=["WebSocketApp._start_ping_thread", "_stop_ping_thread", "handleDisconnect", "_send_ping"]),
         Obligation("T-args", t_args, [dict(t_none=tn, i_kind=ik) for tn in (False, True) for ik in ("sym", "none", "zero")],
                    bounds="ping_interval and ping_timeout arbitrary reals in [-5, 50] (also None / 0): unbounded density, one query per branch",
                    must_cover=["refused", "accepted"], kernel=["WebSocketApp.run_forever (argument validation)"]),
